@@ -46,11 +46,22 @@ func (c *connection) onHup(p Poll) error {
 	needCloseByUser := onConnect == nil && onRequest == nil
 	if !needCloseByUser {
 		// already PollDetach when call OnHup
-		if c.offerBufferedInput() {
-			// the handler sees the remaining input first; its task runs the close callbacks on exit
-			return nil
+		for {
+			if c.offerBufferedInput() {
+				// the handler sees the remaining input first; its task runs the close callbacks on exit
+				return nil
+			}
+			if !c.lock(processing) {
+				// a handler task is running: it offers late input and runs the close callbacks on exit
+				return nil
+			}
+			if !c.hasInputToOffer() {
+				return c.closeCallback(false, false)
+			}
+			// the task that held the lock a moment ago has just exited and left input behind: hand it
+			// to the handler instead of running the close callbacks over it
+			c.unlock(processing)
 		}
-		c.closeCallback(true, false)
 	}
 	return nil
 }
